@@ -108,6 +108,57 @@ def complex_replay_section(rep, ap, rng, tier):
                 break
 
 
+def same_object_section(rep, ap, rng, tier):
+    """callers that keep ONE input object and update it in place between evaluations (x -= step * g; u.data[...] = ...), and callers that
+    overwrite the array a previous evaluation returned: cg.function with the same object gives the value at its CURRENT contents"""
+    import multi
+    for it in range(20 if tier == 'quick' else 300):
+        prog = progs.gen_prog(rng, ap, nout=1, scalar_only=(it % 2 == 0))
+        N = prog['N']
+        text = progs.to_text(prog)
+        kind = rng.choice(['ndarray', 'UTPM'])
+        try:
+            cg, fx, fys = record(ap, prog, make_input(ap, rng, N, kind)[0])
+        except Exception as e:
+            rep.notes.append('recording raised %r' % e); continue
+        x = progs.rand_point(rng, N) if kind == 'ndarray' else ap.UTPM(progs.rand_utpm_data(rng, 2, 2, N))
+        for step in range(3):
+            rep.count('same object replayed', kind)
+            rep.case(('same-object', text, kind, step, repr(as_data(x).tolist())), True, sample=dict(check='same input object, contents changed in place', kind=kind, step=step))
+            try:
+                got = cg.function([x])
+                want = progs.run(prog, x if kind == 'ndarray' else ap.UTPM(x.data.copy()), ap)
+            except Exception as e:
+                rep.notes.append('evaluation raised %r' % e); break
+            if not all(same(g, w) for g, w in zip(got, want)):
+                rep.violation('replay:same-object', 'cg.function called with the SAME %s object after its contents were changed in place returns the value of an earlier evaluation' % kind,
+                              dict(kind='replay', prog=prog, x_new=repr(as_data(x).tolist()), step=step))
+                break
+            # the caller scribbles on what it was handed, then moves the point in place
+            for g in got:
+                try:
+                    as_data(g)[...] = -7.5
+                except Exception:
+                    pass
+            if kind == 'ndarray':
+                x *= 0.5; x += 0.25
+            else:
+                x.data[...] = x.data * 0.5 + 0.25
+    # two independents, one of them kept and updated in place
+    for it in range(6 if tier == 'quick' else 60):
+        cg, order = multi.record(ap, progs.rand_point(rng, 3) + 0.125, progs.rand_point(rng, 2) + 0.125, bool(it & 1), False)
+        a, b = progs.rand_point(rng, 3) + 0.125, progs.rand_point(rng, 2) + 0.125
+        for step in range(3):
+            rep.count('same object replayed', 'two independents')
+            rep.case(('same-object-2', it, step, repr(a.tolist()), repr(b.tolist())), True, sample=dict(check='same input objects, one updated in place', step=step))
+            got = float(numpy.asarray(as_data(cg.function([a, b])[0])).reshape(-1)[0]); want = float(multi.direct(ap, a.copy(), b.copy()))
+            if abs(got - want) > 1e-12 * (1 + abs(want)):
+                rep.violation('replay:same-object:two-independents', 'cg.function([a, b]) with the same objects after b was updated in place: %r, the program gives %r' % (got, want),
+                              dict(kind='replay', a=a.tolist(), b=b.tolist(), step=step))
+                break
+            b -= 0.125
+
+
 def multi_input_section(rep, ap, rng, tier):
     """graphs with several independent variables, wrapped eagerly (all first) or lazily (operations on the first input are recorded
     before the second input is wrapped; a buffer is allocated in between): replay at other points / kinds / D, P against the program
@@ -261,6 +312,7 @@ def main(tier, seed):
                 break
     multi_input_section(rep, ap, rng, tier)
     complex_replay_section(rep, ap, rng, tier)
+    same_object_section(rep, ap, rng, tier)
     verdicts, logs = lib.eval_bool_cases(PID, tm.IMPORTS, tm.DEFS, terms, per_file=40)
     bad = 0
     for m, v, t in zip(metas, verdicts, terms):
